@@ -20,6 +20,11 @@ func main() {
 		worker(os.Args[2:])
 		return
 	}
+	if os.Args[1] == "dump" && len(os.Args) >= 5 {
+		// development aid: vcheck dump <family[@format]> <tier> <scenario id> prints the stand-alone reproduction script
+		fmt.Print(checks.DumpScenario(os.Args[2], os.Args[3], os.Args[4]))
+		return
+	}
 	prop := os.Args[1]
 	run := ev.Start(prop)
 	if len(os.Args) >= 4 && os.Args[2] == "--replay" {
